@@ -489,6 +489,11 @@ def run(P, R, tier):
     R.floor('C12.IDX.1', 4, 'group and hex-digit subscripts of the printer')
     R.floor('C12.SHF.1', 4, 'digit shifts of the printer')
     parser_rules(P, R)
+    # the daemon reads its own output back: an address whose last octet or group is 0 is printed with that 0, and the
+    # parsers must take a 0 for a number
+    from . import c13 as _c13
+    _fns = _c13.scope(P)
+    _c13.octet_value_blind(P, R, list(_fns) if not isinstance(_fns, dict) else list(_fns.values()), 'C12.GRD.5')
     return EXPLANATION, ASSUMPTIONS
 
 
